@@ -358,6 +358,8 @@ def install_linalg_hooks(ctx):
         start, stop, num = float(a[0]), float(a[1]), int(a[2])
         if abs(start - stop) <= 10e-8 or num < 2:
             return False
+        if start > stop:
+            c.count('linspace-descending')
         ok = len(res) == num
         dec = a[3] if len(a) > 3 else k.get('decimals', 18)
         if ok:
@@ -632,6 +634,7 @@ def check_helpers(case, ctx):
         b = a + rng.choice([1.0, 0.5, 7.25, rng.uniform(0.01, 20)])
         nn = rng.randint(2, 40)
         linalg.linspace(a, b, nn)
+        linalg.linspace(b, a, nn)          # descending intervals are evenly spaced sequences too
         step = (b - a) / rng.randint(1, 12)
         seq = list(linalg.frange(a, b, step))
         ok = seq[0] == a and all(y > x for x, y in zip(seq, seq[1:])) and \
